@@ -288,6 +288,9 @@ def analyse(obs: Obs, prog):
             retagged = is_call(leaf, "unknown_change") or is_call(leaf, "no_change") or is_call(leaf, "tree_diff")
             if not retagged and not _all_nochange_guard(conds):
                 raw_bad.append(show(leaf)[:120])
+            # provenance: what is chosen between is the branches' own return-value diff (component 2 of the branch edit), possibly re-tagged
+            if not mentions_any(leaf, lambda x: is_t(x, "proj") and x[2] == 2 and mentions_any(x[1], lambda y: is_mcall(y, "edit"))):
+                raw_bad.append("not a branch retdiff: " + show(leaf)[:100])
     obs.add({"C13", "C05", "C08"}, "BRANCH-TAG-JOIN", "Switch.edit/retdiff-tags", is_t(q[2], "choose") and not raw_bad, construct="per-branch retdiffs chosen by index",
             derived=f"raw branch retdiff(s) reach tree_choose with branch-dependent tags: {raw_bad[:2]}" if raw_bad else "uniformly tagged or guarded",
             expected="retdiffs re-tagged uniformly (Diff.unknown_change(Diff.tree_primal(rd))) unless every branch reports NoChange", where=w)
